@@ -142,7 +142,7 @@ PLANS = {
                 "distinct_nontrivial counts distinct (build, implementation, operation, number freed class, range class) tuples plus the C01 classes.",
         "assumptions": COMMON_ASSUME + ["'unlinked and empty at that moment' is checked after the call from the deallocation order and the pre/post dumps in every flavour, and additionally inside the deallocator callback (raw volatile walk of all live tables) in the opt-level-0 flavour only: an optimising build may legally sink the mapper's `entry.set_unused()` (a store through `&mut`) below the deallocator call"],
         "quick": BOTH_Q + [{"flavor": "opt0", "shards": 2, "scale": 0.5, "tag": "in-callback"}],
-        "thorough": BOTH_T + [{"flavor": "opt0", "shards": 4, "scale": 0.3, "tag": "in-callback"}] + MIRI_T + VALGRIND_T,
+        "thorough": BOTH_T + [{"flavor": "opt0", "shards": 8, "scale": 0.04, "tag": "in-callback"}] + MIRI_T + VALGRIND_T,
     },
 
     "C17": {
